@@ -107,6 +107,7 @@ NewReq(c, s, idem, op, cached, tok, ss) ==
                                \* checked for this request, C01 C02 C04 still are
      closed |-> FALSE,         \* client connection closed
      lastkind |-> NONE,        \* kind of the (first) reply
+     pans |-> NONE,            \* the answer a backend gave to the last re-PREPARE made for this request
      attlog |-> <<>>]          \* history: <<host, outcome>> of every attempt (hidden by VIEW)
 
 -----------------------------------------------------------------------------
@@ -167,6 +168,7 @@ DoTake(r, h, b, bs, op) ==
                           !.ab = b,
                           !.shaky = ShakyNow(q.sess),
                           !.mode = IF isprep THEN "prep" ELSE "req",
+                          !.pans = IF isprep THEN "none" ELSE q.pans,
                           !.ans = NONE,
                           \* a retry on the same host shows that the answer was read, not lost
                           !.maylost = q.maylost /\ ~(~isprep /\ TakeIsSame(q, h) /\ ~TakeIsNext(q, h)),
@@ -217,6 +219,7 @@ DoAnswer(r, b, bs, o) ==
                 IF current THEN
                     [q EXCEPT !.shaky = ShakyNow(q.sess), !.ph = "exec", !.must = IF q.fork THEN q.must \cup newmust \cup {"reply_" \o ReplyKind(o)} ELSE newmust,
                               !.retry = newretry, !.rlo = newrlo, !.prlo = lo, !.maylost = FALSE, !.ans = o,
+                              !.pans = IF x.op = "prep" THEN o ELSE q.pans,
                               !.unsafe = IF x.op = "req" THEN (q.unsafe \/ o \notin SafeToResend) ELSE q.unsafe,
                               !.attlog = IF x.op = "req" THEN Append(q.attlog, <<q.cur, o>>) ELSE q.attlog]
                 ELSE \* answer to a superseded (ghost) attempt: first result wins, the other is dropped
@@ -332,14 +335,21 @@ DoReply(r, c, s, kind, tok, node) ==
                                          !.lastkind = IF q.nrep = 0 THEN kind ELSE q.lastkind]]
     /\ bad' = Flag(own /\ first /\ allowed /\ content,
                    IF ~own THEN "C02" ELSE IF ~first THEN "C01" ELSE IF ~content THEN "C02"
-                   ELSE IF kind = "unprepared" /\ q.cached THEN "C08" ELSE IF ~known THEN "C02"
-                   ELSE IF q.mode = "prep" /\ "same" \in q.must THEN "C08" ELSE IF q.op = "LOCAL" THEN "C02" ELSE "C05",
+                   ELSE IF kind = "unprepared" /\ q.cached THEN "C08"
+                   ELSE IF q.mode = "prep" THEN "C08"     \* whatever the client is told while its request is being re-prepared
+                   ELSE IF ~known /\ tok = "" /\ kind # "ok" THEN "C05"
+                   ELSE IF ~known THEN "C02"
+                   ELSE IF q.op = "LOCAL" THEN "C02" ELSE "C05",
                    IF ~own THEN "response delivered on a stream/client that did not send the request"
                    ELSE IF ~first THEN "second response for one request"
                    ELSE IF ~content THEN "response carries another request's answer"
                    ELSE IF kind = "unprepared" /\ q.cached THEN "UNPREPARED returned although the statement is cached"
+                   ELSE IF q.mode = "prep" /\ q.pans = "ok" THEN "request answered without being re-executed after its statement was re-prepared"
+                   ELSE IF q.mode = "prep"
+                        THEN "request answered in a way its re-preparation does not allow (a failed or lost re-preparation moves on to the next host)"
+                   ELSE IF ~known /\ tok = "" /\ kind # "ok"
+                        THEN "the client received an error of the proxy's own making where the retry policy prescribes another move"
                    ELSE IF ~known THEN "response is not the answer to any attempt of this request"
-                   ELSE IF q.mode = "prep" /\ "same" \in q.must THEN "request answered without being re-executed after its statement was re-prepared"
                    ELSE IF q.op = "LOCAL" THEN "a read of the virtual system tables was answered with something else than its rows"
                    ELSE "reply not prescribed by the retry policy", r)
     /\ UNCHANGED <<conn, out>>
